@@ -57,9 +57,19 @@ ENGINES["relay"] = {
     "probes": ["relay.name-sniffed", "relay.idle-gap-survived", "relay.port53", "relay.server-first", "relay.data-after-client-halfclose"],
 }
 
+ENGINES["quicsniff"] = {
+    "pkg": "component/sniffing",
+    "tags": "",
+    "test": "TestSimC06Quic",
+    "harness": ["harness/sniffing/quic_test.go"],
+    "keepgoing": False,
+    "quick_secs": 20, "thorough_secs": 300,
+    "probes": ["quic.name-found", "quic.name-found-v2", "quic.no-sni-hello", "quic.coalesced-initials"],
+}
+
 PROPS = {
     "C05": {"engines": ["relay"], "rule_prefixes": ["c05-", "task-panic"]},
-    "C06": {"engines": ["relay"], "rule_prefixes": ["c06-", "c05-corrupt", "c05-healthy-cut", "c05-lost", "task-panic"]},
+    "C06": {"engines": ["relay", "quicsniff"], "rule_prefixes": ["c06-", "c05-corrupt", "c05-healthy-cut", "c05-lost", "task-panic"]},
     "C13": {"engines": ["taskpool", "endpoint"]},
     "C16": {"engines": ["health"], "rule_exclude_prefixes": ["select-"]},
     "C15": {"engines": ["health"], "rule_prefixes": ["select-", "alive-set-index", "task-panic"]},
